@@ -343,7 +343,16 @@ def canon_result(op, r, go):
     if kind == "build":
         out["ok"] = r.get("ok")
         out["rules"] = r.get("rules")
-        if "nerr" in r:
+        if op.get("front"):
+            # the model read the text itself: compare the error channels (lexer / parser), not the error count
+            if go:
+                ek = r.get("errkinds") or {}
+                out["lex"] = ek.get("lex", 0) > 0
+                out["syntax"] = ek.get("syntax", 0) > 0
+            else:
+                out["lex"] = r.get("lexErrs", 0) > 0
+                out["syntax"] = not r.get("grammatical", True)
+        elif "nerr" in r:
             out["nerr"] = r["nerr"]
         if "wm" in r:
             out["wm"] = r["wm"]
